@@ -47,7 +47,7 @@ def rand_aut(rng, alphabets=STR_ALPHABETS):
         return {"init": {"route": "graph", "d": d, "starts": [rng.choice(vs)]}, "ops": []}
     if r < 0.9:
         return U.rand_history(rng, maxlen=rng.choice([2, 5, 10]), p_invalid=0.0, fresh=False, alphabets=alphabets)
-    return {"init": {"route": "free", "gens": rng.sample(["a", "b", "c"], rng.choice([1, 2]))}, "ops": []}
+    return {"init": U.rand_free_init(rng), "ops": []}
 
 
 def gen_automata(rng, n, exhaustive=((1, 3), (2, 2)), alphabets=STR_ALPHABETS):
